@@ -54,6 +54,33 @@ INFO = {
     "C24-a2": ("C24", "record_unfilled_pages iterates instead of draining and into_zalsa_handle lets the storage drop: pages are handed back twice",
                "a handle converted with into_zalsa_handle after it allocated, then two handles allocating concurrently from the page that is listed twice",
                ["C24"]),
+    "C02-a2": ("C02", "report_tracked_write stamps only revisions[durability] instead of revisions[1..=durability]",
+               "a function of MEDIUM durability that also reads a HIGH field, then a write to the HIGH field and no MEDIUM write before the next fetch",
+               ["C02"]),
+    "C04-a2": ("C04", "can_backdate also lets a re-executed query with an untracked read be backdated when its durability just dropped",
+               "a function that first runs without an untracked read on inputs above LOW, later re-executes with one and an equal value; the untracked cell then changes under a lower-durability synthetic write and a dependent is requested first",
+               ["C04"]),
+    "C06-a2": ("C06", "new_struct stores the updated id back into the identity map only when the slot index changed",
+               "an identity field type whose hash collides for different values and three revisions a -> b -> c of colliding identity values: c receives the id b had",
+               ["C06", "C07"]),
+    "C07-a2": ("C07", "the generated update_fields chains the identity-field updates with `||` instead of `|`",
+               "a tracked struct with two identity fields re-created at the same position with hash-colliding, unequal identity values: the second field keeps the predecessor's value",
+               ["C07", "C06"]),
+    "C09-a2": ("C09", "RevisionQueue::record_cold drops its lock guard immediately (`let _ =`)",
+               "two threads whose first use of a collectable interned type in a fresh revision overlaps: the revision is recorded twice and a value used within the last `revisions` revisions is reclaimed",
+               ["C09"]),
+    "C10-a2": ("C10", "the 'specified value replaced by a different computed value: changed now' guard compares with the old memo's changed_at instead of verified_at",
+               "rev 1 creator specifies and a reader memoizes; rev 2 only an input of the function's own body changes (readers re-verified); rev 3 the creator stops specifying",
+               ["C10"]),
+    "C11-a2": ("C11", "QueryEdgeIter::next_back of the wide layout calls next(): reverse iteration yields the edges front to back",
+               "a function that calls specify (wide edge layout) and at least two accumulating children, read through accumulated()",
+               ["C11", "C25"]),
+    "C25-a2": ("C25", "same patch as C11-a2 (wide-layout next_back), delivered independently for the round-trip property",
+               "any wide-layout origin with two or more edges iterated backwards",
+               ["C25", "C11"]),
+    "C26-a2": ("C26", "the memo serializer no longer clears visited_edges per memo when flattening dependencies",
+               "two memos of one persisted function that reach the same non-persisted helper at depth >= 2; serialize, restore, write to the helper's input, fetch the second memo",
+               ["C26"]),
 }
 
 
